@@ -14,6 +14,7 @@ use std::borrow::Cow;
 use std::panic::{catch_unwind, AssertUnwindSafe};
 use unicode_normalization::UnicodeNormalization;
 
+mod gen15;
 mod oracle_core {
     include!("oracle_core.rs");
 }
@@ -30,6 +31,7 @@ const ALPHABET: &[char] = &[
     '\u{5d0}', '\u{5b0}', '\u{5f3}', '\u{627}', '\u{644}', '\u{64e}', '\u{661}', '\u{6f1}', '\u{1c5}', '\u{130}', '\u{140}',
     '\u{1680}', '\u{2003}', '\u{200a}', '\u{200c}', '\u{200d}', '\u{94d}', '\u{915}', '\u{3000}', '\u{ff21}', '\u{ff76}', '\u{ff9e}', '\u{ffe0}',
     '\u{30fb}', '\u{30a2}', '\u{4e2d}', '\u{1f88}', '\u{212b}', '\u{13a0}', '\u{a9c0}', '\u{2163}', '\u{221e}',
+    '\u{3131}', '\u{ffa1}', '\u{1100}', '\u{3c3}', 'J', '\u{30c}',
     '\u{1f600}', '\u{10900}', '\u{1e922}', '\u{e0001}', '\u{10ffff}',
 ];
 
@@ -503,6 +505,7 @@ fn search(pid: &str, seed: u64, budget: usize) -> Option<(String, String)> {
                        for st in 0..6 { for bw in [false, true] { if let Some(d) = c13(&t, st, bw) { return Some((format!("{{\"table\":{:?},\"start\":{},\"borrowed\":{}}}", t, st, bw), d)); } } } } None }
         "C14" => { for cp in cps_sample(seed, 20000) { if let Some(d) = c14_cp(cp) { return Some((format!("{}", cp), d)); } } None }
         "C16" => by_str(&c16),
+        "C15" => { let n = if budget > 50000 { 4000 } else { 400 }; for i in 0..n { if let Some(x) = gen15::check(seed.wrapping_mul(1000003).wrapping_add(i)) { return Some((x.0, x.1)); } } None }
         "C18" => { let pts = [0u32, 1, 2, 3, 4, 5, 6, u32::MAX - 2, u32::MAX - 1, u32::MAX];
                    for &a in &pts { for &b_ in &pts { for &cp in &pts { for single in [true, false] { if !single && a > b_ { continue; } if let Some(d) = c18(single, a, b_, cp) { return Some((format!("[{},{},{},{}]", single, a, b_, cp), d)); } } } } } None }
         _ => None,
